@@ -123,7 +123,7 @@ struct Shapes
 };
 
 // members of Zoo in Serialize order (bit positions of Zoo::saveMask)
-static const char* const kZooOrder[] = { "base", "color", "emap", "dur", "durMs", "tp", "tpMs", "vec", "vbool", "deq", "lst", "fwd", "arr", "val", "que", "stk", "pq", "set", "mset", "uset", "umset", "map", "imap", "mmap", "umap", "ummap", "mapOnlyExist", "mapUpdate", "mapUpdateOpt", "opt", "optStr", "uptr", "sptr", "uobj", "bits", "tup", "pr", "atom", "s", "s16", "s32", "ws", "vv", "mv", "vo", "vobj", "bin", "rows", "voObj", "vuObj", "vsObj", "vtup", "optDur", "uDur" };
+static const char* const kZooOrder[] = { "base", "color", "emap", "dur", "durMs", "tp", "tpMs", "vec", "vbool", "deq", "lst", "fwd", "arr", "val", "que", "stk", "pq", "set", "mset", "uset", "umset", "map", "imap", "mmap", "umap", "ummap", "mapOnlyExist", "mapUpdate", "mapUpdateOpt", "opt", "optStr", "uptr", "sptr", "uobj", "bits", "tup", "pr", "atom", "s", "s16", "s32", "ws", "vv", "mv", "vo", "vobj", "bin", "rows", "voObj", "vuObj", "vsObj", "vtup", "optDur", "uDur", "lastTup" };
 
 struct ZooBase
 {
@@ -186,6 +186,7 @@ struct Zoo : ZooBase
 	std::list<std::shared_ptr<Inner>> vsObj;
 	std::vector<std::tuple<int32_t, std::string>> vtup;
 	std::string computed;   // loaded from the member the save side computes
+	std::tuple<int32_t, std::string> lastTup{};   // the last member of the document is a tuple (an input that ends inside it ends inside a tuple element)
 	// XML attributes of the root element (XML archive only)
 	int32_t attrI = 0;
 	uint64_t attrU64 = 0;
@@ -307,6 +308,7 @@ struct Zoo : ZooBase
 		// a value computed while saving: the KeyValue owns a temporary (loading reads it into a plain member)
 		if constexpr (A::IsSaving()) { if (saveMask == ~0ull) ar << KeyValue("computed", baseName + "/computed-while-saving/" + s); }
 		else { ar << KeyValue("computed", computed); }
+		F(KeyValue("lastTup", lastTup));
 	}
 };
 
